@@ -11,13 +11,12 @@ def run(ctx):
     pump(ctx)
 
 def pump(ctx):
-    """255 saturation: 300 periods of silence, then the counter is read (and reads 0 afterwards)"""
-    import node_common
-    from vlib import Beh
-    steps = [dict(e=["rx", 1802, 1, 5, 0, 0, 0, 0, 0, 0, 0], x=[["cb", "hbchange", 10, 3]])]
-    for i in range(600):
-        steps.append(dict(e=["tick"], x=[["cb", "hbevent", 10]] if i % 2 == 1 else []))
-    steps.append(dict(e=["hb_events", 10], x=[["ret", 255]]))
-    steps.append(dict(e=["hb_events", 10], x=[["ret", 0]]))
-    b = Beh(dict(n=5, hb=0, hc=[[10, 2], [0, 0]]), steps, 0)
-    ctx.replay([b], node_common.make_preamble(node_check.cfgfix), node_check.observe, ordered=True, label="saturation")
+    """255 saturation: scenarios evaluated by TLC on the reference (CoNodeGen!EmitPump): first heartbeat, k in
+    {1, 3, 254..257, 300, 511, 512, 600} periods of silence, then the counter is read twice"""
+    import node_common, vlib
+    r = vlib.run_tlc("MCNode", "C11_pump.cfg", workers=1, timeout=600)
+    behs = vlib.records_to_behaviours(r["out"])
+    if len(behs) != 10:
+        raise vlib.Infra("C11 pump scenarios: expected 10 behaviours, got %d (%s)" % (len(behs), r["tail"]))
+    ctx.mc_runs.append(dict(module="MCNode", cfg="C11_pump.cfg", mode="scenario-evaluation", behaviours=len(behs)))
+    ctx.replay(behs, node_common.make_preamble(node_check.cfgfix), node_check.observe, ordered=node_check.tick_unordered, label="saturation")
